@@ -257,7 +257,49 @@ def array2d_term(ex, m, st):
 
 
 def np_slice_store(ex, base, t, v, st, node):
-    raise Unsupported('slice assignment')
+    """`m[a:b:-1, c] = scalar` / `m[r, a:b:-1] = scalar` on a 2-D ndarray (A3): the cells of the slice take the value,
+    every other cell keeps its content."""
+    if not isinstance(base, Ref) or not isinstance(t.slice, ast.Tuple) or len(t.slice.elts) != 2:
+        raise Unsupported('slice assignment')
+    obj = st.heap[base.oid]
+    if not isinstance(obj, ArrObj) or obj.shape is None or obj.kind != 'val':
+        raise Unsupported('slice assignment on this object')
+    e0, e1 = t.slice.elts
+    if isinstance(e0, ast.Slice) and isinstance(e1, ast.Slice):
+        raise Unsupported('2-D block slice assignment')
+    v = ex.need_num(v, node)
+    if isinstance(v, Ref):
+        raise Unsupported('slice assignment of an array')
+    row_slice = isinstance(e0, ast.Slice)
+    if row_slice:
+        sl, fixed, dim, fdim = e0, ex.ev(e1, st), obj.shape[0], obj.shape[1]
+    else:
+        sl, fixed, dim, fdim = e1, ex.ev(e0, st), obj.shape[1], obj.shape[0]
+    fixed = ex.norm_index(fixed, fdim, node, st, 'fixed index')
+    start, n, step = ex.np_slice_range(sl, dim, node, st)
+    ex.frame_write(obj, None, st, node)
+    if obj.items is not None:
+        if not (is_cint(start) and is_cint(n) and is_cint(fixed)):
+            raise Unsupported('symbolic slice of a concrete 2-D array')
+        o2 = obj.clone()
+        o2.items = [list(r) for r in obj.items]
+        for k in range(n):
+            p = start + k * step
+            if row_slice:
+                o2.items[p][fixed] = float(v) if concrete(v) else v
+            else:
+                o2.items[fixed][p] = float(v) if concrete(v) else v
+        st.heap[base.oid] = o2
+        return None
+    s0, n0, f0 = zint(start), zint(n), zint(fixed)
+    lo, hi = (s0, s0 + n0) if step == 1 else (s0 - n0 + 1, s0 + 1)
+    new = fresh('slstore', arr2sort(Val))
+    i, j = z3.Consts('ss_i!%d ss_j!%d' % (ex.qcount(), ex.qcount()), IntS)
+    inside = z3.And(lo <= i, i < hi, j == f0) if row_slice else z3.And(i == f0, lo <= j, j < hi)
+    pats = [sel2(new, i, j)] + ([sel2(obj.arr, i, j)] if z3.is_const(obj.arr) else [])
+    st.assume(z3.ForAll([i, j], sel2(new, i, j) == z3.If(inside, vlit(v), sel2(obj.arr, i, j)), patterns=pats))
+    st.heap[base.oid] = obj.clone(arr=new)
+    return None
 
 
 @lib('np.fill_diagonal')
